@@ -3,7 +3,7 @@
 use crate::body::*;
 use crate::runner::{make_config, E2Config, E2Out, E2Replay, Viol};
 use crate::world5::*;
-use simcore::rng::mix;
+use simcore::rng::{mix, Rng};
 use simcore::sched::{self, SimConfig, Strategy};
 use simcore::{arena, fault, ledger};
 use std::collections::BTreeMap;
@@ -24,6 +24,9 @@ pub struct ParCase {
     pub par_count: fn(&mut Wd) -> usize,
     pub par_sum: fn(&mut Wd, u64) -> u64,
     pub par_collect: fn(&mut Wd, u64) -> Vec<ItemObs>,
+    /// Short-circuiting consumers (`find_any`, `any`, `all`, `try_for_each` by mode) looking for an item
+    /// of weight `target`; every item the consumer was handed is pushed to the list. Returns "found".
+    pub par_short: fn(&mut Wd, u64, u8, u64, &Mutex<Vec<ItemObs>>) -> bool,
 }
 
 /// A small per-item number for `sum()` (no overflow for any realistic item count).
@@ -161,6 +164,55 @@ pub fn run_par_case(case: &ParCase, cfg: &E2Config, run_seed: u64, decisions: Op
                 if oc.stats.forks > 0 && !obs_seq.is_empty() {
                     hit(&mut probes, "value_consumer_split", 1);
                 }
+            }
+            // 1c. short-circuiting consumers (the `full()` side of the consumer protocol): the verdict equals the
+            // sequential one, nothing is handed out twice, and without a hit every result is handed out.
+            {
+                let mut rng = Rng::new(mix(&[run_seed, 0x5C]), 3);
+                let mode = rng.below(4) as u8;
+                let present = !obs_seq.is_empty() && rng.chance(1, 2);
+                let target = if present { item_weight(&obs_seq[rng.below(obs_seq.len() as u64) as usize]) } else { 0xF_FFFF_FFFF };
+                let seen = Mutex::new(Vec::new());
+                sched::begin(sim_config(cfg), mix(&[run_seed, 4]), None);
+                let prev = arena::set_tag(arena::TAG_SUT);
+                let r = catch_unwind(AssertUnwindSafe(|| (case.par_short)(&mut w, salt, mode, target, &seen)));
+                arena::set_tag(prev);
+                let oc = sched::end();
+                let name = ["find_any", "any", "all", "try_for_each"][mode as usize];
+                if let Some(f) = &oc.failure {
+                    return Err(viol("C12", "no-progress", format!("parallel {name} did not finish: {f}")));
+                }
+                let found = match r {
+                    Ok(x) => x,
+                    Err(p) => {
+                        let msg = if let Some(a) = p.downcast_ref::<sched::SimAbort>() { a.0.clone() } else { simcore::take_panic().unwrap_or_else(|| "<panic>".into()) };
+                        return Err(viol("C09", "unexpected-panic", format!("par_query(..).{name}() panicked: {msg}")));
+                    }
+                };
+                if found != present {
+                    return Err(viol("C09", "parallel-results-differ", format!("{}: par_query(..).iter.{name}(weight == {target:#x}) says {found}, the sequential results {} such an item", case.name, if present { "contain" } else { "do not contain" })));
+                }
+                let seen = seen.into_inner().unwrap_or_else(|p| p.into_inner());
+                let mut got: Vec<_> = seen.iter().map(key).collect();
+                got.sort();
+                let mut rest = expect_keys.clone();
+                for k in &got {
+                    match rest.binary_search(k) {
+                        Ok(i) => {
+                            rest.remove(i);
+                        }
+                        Err(_) => {
+                            return Err(viol("C09", "parallel-results-differ", format!("{}: par_query(..).iter.{name}() was handed a result the sequential query does not yield, or the same result twice ({k:?})", case.name)));
+                        }
+                    }
+                }
+                if !present && !rest.is_empty() {
+                    return Err(viol("C09", "parallel-results-differ", format!("{}: par_query(..).iter.{name}() without a hit was handed {} results, sequential {}", case.name, got.len(), expect_keys.len())));
+                }
+                if present && !rest.is_empty() {
+                    hit(&mut probes, "short_circuit_skipped_items", 1);
+                }
+                hit(&mut probes, "short_circuit_consumer", 1);
             }
             if let Some(e) = take_body_error() {
                 return Err(viol("C05", "payload-integrity", e));
